@@ -122,6 +122,14 @@ func getProfile(name string, seed int64) *Profile {
 		p.NumTable = "extremes"
 		p.Indexes = false
 		p.SortHeavy = true
+	case "alltimes": // C20: every instant, also before 1970 (index order is not claimed there - but nothing may panic)
+		p.TimeTable = "far"
+		p.Colls = 1
+		p.SortHeavy = true
+		p.Invalid = 0.02
+		p.IdxPool = []string{"t", "t", "t", "x"}
+		p.Aim = "t"
+		p.W = weights(map[string]int{"FindAll": 20, "Derived": 6, "ForEach": 4, "DropCollection": 0, "Insert": 16, "DropIndex": 3, "CreateIndex": 4, "UpdateById": 6, "Delete": 3})
 	case "fartimes": // times from 1970 to year 9999 in indexed, filtered and sorted fields
 		p.TimeTable = "far1970"
 		p.Colls = 1
